@@ -24,7 +24,8 @@ EXTENDS Naturals, Sequences, FiniteSets, TLC
 
 CONSTANTS Threads, FixedOrder,
           Scenario    \* "stream": one stream task, every caller delivers an item through the bridge (registry mutex)
-                      \* "all":    Command::all of one request.then_send per caller; caller t resolves the request
+                      \* "all":    one command with one sibling task (ctx.spawn) per caller, each a request followed by an event;
+                      \*           caller t resolves the request
                       \*           of task t through Core::resolve (typed API, no registry)
 MaxW == 3 * Cardinality(Threads) + 3
 Tasks == IF Scenario = "stream" THEN {1} ELSE Threads
